@@ -188,6 +188,18 @@ macro_rules! text_table {
                 Ok(out) if out == &b[..] => {}
                 other => $rep.violation(&format!("C18|{}|encode|{}", $name, s), format!("{:?} encodes to {:?}", v, other.map(|o| crate::cbor::hex(o))), &b),
             }
+            // the same characters carried by another CBOR type are not the identifier (S175)
+            for (what, other) in [
+                ("byte-string", encode(&V::B(s.as_bytes().to_vec()))),
+                ("array-of-one", encode(&V::A(vec![V::text(s)]))),
+                ("tagged-text", [&[0xc0u8][..], &b[..]].concat()),
+                ("non-minimal-text", [&[0x78u8, s.len() as u8][..], s.as_bytes()].concat()),
+            ] {
+                $rep.input(&other, true);
+                if let Ok(Ok(x)) = guard(|| cbor_deserialize::<$ty>(&other)) {
+                    $rep.violation(&format!("C18|{}|accepts-unlisted|{}", $name, what), format!("{} {} decoded as {:?}", what, crate::cbor::hex(&other), x), &other);
+                }
+            }
         }
         // distinct identifiers never share a spelling
         for i in 0..table.len() {
